@@ -132,6 +132,7 @@ def run_property(pid: str, tier: str, seed: int) -> int:
     import kani_engine
     import replay as replay_mod
     rep = Report(pid, tier, seed)
+    os.environ["VERIF_TIER_EFFECTIVE"] = tier
     findings = load_findings()
     root = scratch.make_copy(pid)
     dst = os.path.join(root, "repo")
